@@ -332,3 +332,32 @@ def boundary_programs():
     return P
 
 
+def random_boundary_programs(seed, n):
+    """straight-line and looping arithmetic around the top of the word range (all literals are accepted ones)"""
+    import random as _r
+    r = _r.Random(seed)
+    consts = [0, 1, 2, 5, H - 1, H, H + 1, M - 2, M - 1, M]
+    out = []
+    for k in range(n):
+        lines = ["PROGRAM bump IN a OUT a DO a := a + %d END" % r.choice(consts),
+                 "PROGRAM drop IN a OUT a DO a := a - %d END" % r.choice(consts),
+                 "x := %d; y := %d; z := 3;" % (r.choice(consts), r.choice(consts))]
+        stmts = []
+        for _ in range(r.randint(6, 14)):
+            v, w = r.choice("xyz"), r.choice("xyz")
+            q = r.random()
+            if q < 0.4:
+                stmts.append("%s := %s + %d" % (v, w, r.choice(consts)))
+            elif q < 0.6:
+                stmts.append("%s := %s - %d" % (v, w, r.choice(consts)))
+            elif q < 0.7:
+                stmts.append("%s := %s" % (v, w))
+            elif q < 0.85:
+                stmts.append("%s := RUN %s WITH %s END" % (v, r.choice(["bump", "drop"]), w))
+            elif q < 0.93:
+                stmts.append("LOOP z DO %s := %s + %d; z := z - 1 END" % (v, v, r.choice(consts)))
+            else:
+                stmts.append("IF %s = %d THEN GOTO skip%d; %s := %s + 1; skip%d: %s := %s - 0" % (v, r.choice(consts), len(stmts), w, w, len(stmts), w, w))
+        lines.append(";\n".join(stmts))
+        out.append(("rnd%d" % k, {"files": {"m": "\n".join(lines) + "\n"}, "main": "m"}))
+    return out
